@@ -48,7 +48,12 @@ HeaderFor(kind, valT, pkLen) ==
   ELSE IF valT = "hashed" THEN Header(16, 15, pkLen)
   ELSE Header(192, 63, pkLen)
 
-EncValN(v) == CASE v.t = "inline" -> Compact(Len(v.b)) \o v.b
+(* byte length of a value that may contain hash tokens (a child-trie root  *)
+(* stored as a VALUE of the main trie is such a token: 32 bytes); for      *)
+(* token-free sequences this is Len                                        *)
+ByteLen(b) == IF HasToken(b) THEN BLen(b) ELSE Len(b)
+
+EncValN(v) == CASE v.t = "inline" -> Compact(ByteLen(v.b)) \o v.b
                 [] v.t = "hashed" -> v.b
                 [] OTHER -> <<>>
 
@@ -69,12 +74,18 @@ EncN(n) ==
 (* well-formed abstract nodes: what EncN is specified on *)
 IsItem32(h) == (h # <<>> /\ h[1] = -1 /\ Len(h) = 2 + h[2]) \/ (Len(h) = 32 /\ \A i \in 1..32 : h[i] \in Byte)
 IsPlain(b) == \A i \in 1..Len(b) : b[i] \in Byte
+(* value bytes: plain bytes and whole hash tokens (each standing for 32 bytes) *)
+RECURSIVE IsTokBytes(_)
+IsTokBytes(b) == IF b = <<>> THEN TRUE
+                 ELSE IF b[1] = -1 THEN Len(b) >= 2 /\ b[2] >= 0 /\ Len(b) >= 2 + b[2] /\ IsTokBytes(Drop(b, 2 + b[2]))
+                 ELSE b[1] \in Byte /\ IsTokBytes(Tail(b))
+IsValueBytes(b) == IsPlain(b) \/ IsTokBytes(b)
 WellFormed(n) ==
   /\ n.kind \in {"empty", "leaf", "branch"}
   /\ n.kind = "empty" => n = EmptyNode
   /\ Len(n.pk) <= MaxPkLen /\ \A i \in 1..Len(n.pk) : n.pk[i] \in 0..15
   /\ n.kind = "leaf" => n.val.t # "none" /\ n.kids = NoKids
-  /\ n.val.t = "inline" => IsPlain(n.val.b)
+  /\ n.val.t = "inline" => IsValueBytes(n.val.b)
   /\ n.val.t = "hashed" => IsItem32(n.val.b)
   /\ \A c \in 0..15 : /\ n.kids[c].t = "inline" => IsPlain(n.kids[c].b) /\ Len(n.kids[c].b) < 32
                       /\ n.kids[c].t = "hash" => IsItem32(n.kids[c].b)
@@ -97,6 +108,24 @@ TakeItem32(s) ==
 TakePlain(s, n) ==
   IF Len(s) >= n /\ \A i \in 1..n : s[i] >= 0
   THEN [ok |-> TRUE, item |-> SubSeq(s, 1, n), rest |-> Drop(s, n)] ELSE Fail
+
+(* n BYTES of value data from the front of s, where a hash token counts   *)
+(* for the 32 bytes it stands for and is never split (C04 child tries: the *)
+(* value of a `:child_storage:default:` entry is the child root, a token). *)
+(* Identical to TakePlain when the first n elements hold no token.         *)
+RECURSIVE TokLen(_, _)
+TokLen(s, n) ==   \* number of elements of s that make up exactly n bytes, or -1
+  IF n = 0 THEN 0
+  ELSE IF s = <<>> THEN -1
+  ELSE IF s[1] = -1
+  THEN (IF n < 32 \/ Len(s) < 2 \/ Len(s) < 2 + s[2] THEN -1
+        ELSE LET r == TokLen(Drop(s, 2 + s[2]), n - 32) IN IF r < 0 THEN -1 ELSE 2 + s[2] + r)
+  ELSE LET r == TokLen(Tail(s), n - 1) IN IF r < 0 THEN -1 ELSE 1 + r
+
+TakeBytes(s, n) ==
+  IF Len(s) >= n /\ \A i \in 1..n : s[i] >= 0 THEN TakePlain(s, n)
+  ELSE LET e == TokLen(s, n)
+       IN IF e < 0 THEN Fail ELSE [ok |-> TRUE, item |-> SubSeq(s, 1, e), rest |-> Drop(s, e)]
 
 (* SCALE compact length, modes 0..2 (lengths below 2^30); big-integer mode *)
 (* is a failure of the SPEC decoder (no node encoding produced by EncN     *)
@@ -151,7 +180,7 @@ TakeValue(s, valT) ==
   THEN LET h == TakeItem32(s) IN IF h.ok THEN [ok |-> TRUE, val |-> HashedVal(h.item), rest |-> h.rest] ELSE Fail
   ELSE LET c == TakeCompact(s) IN
        IF ~c.ok THEN Fail
-       ELSE LET p == TakePlain(c.rest, c.n)
+       ELSE LET p == TakeBytes(c.rest, c.n)
             IN IF p.ok THEN [ok |-> TRUE, val |-> InlineVal(p.item), rest |-> p.rest] ELSE Fail
 
 TakeKid(s) ==
